@@ -119,6 +119,7 @@ type Script struct {
 	NTrlOpt  int          `json:"n_trailer_opts,omitempty"`
 	PeerOpt  bool         `json:"peer_opt,omitempty"`
 	ReuseDest bool `json:"reuse_dest,omitempty"` // each side receives every message into one and the same message value
+	CredMD    map[string]string `json:"cred_md,omitempty"` // metadata of per-RPC credentials attached to the call
 	// RecvFirst makes the receiver goroutine start only after the sender
 	// goroutine has finished (needed for HTTP half-duplex).
 	RecvAfterSend bool `json:"recv_after_send,omitempty"`
@@ -722,6 +723,9 @@ func (r *Run) Exec(cc grpc.ClientConnInterface, parent context.Context, watchdog
 		opts = append(opts, grpc.Peer(r.PeerTarget))
 	}
 	opts = append(opts, r.S.ExtraOpts...)
+	if r.S.CredMD != nil {
+		opts = append(opts, grpc.PerRPCCredentials(&testCreds{md: r.S.CredMD}))
+	}
 
 	done := r.ClientDone
 	go func() {
